@@ -6,7 +6,8 @@ import os
 KEYWORDS = None
 
 
-def keywords(repo="/repo"):
+def keywords(repo=None):
+    repo = repo or os.environ.get("VERIF_REPO", "/repo")
     """alphabetic literal tokens of token.rs (read from the generated table's source)"""
     global KEYWORDS
     if KEYWORDS is None:
@@ -16,7 +17,8 @@ def keywords(repo="/repo"):
     return KEYWORDS
 
 
-def fixtures(repo="/repo"):
+def fixtures(repo=None):
+    repo = repo or os.environ.get("VERIF_REPO", "/repo")
     out = []
     for p in sorted(glob.glob(os.path.join(repo, "compiler/resources/test/*.st"))):
         try:
